@@ -101,7 +101,28 @@ func runC09(rc *RunCtx, i int) {
 	desc := map[string]any{"case": env.w.Case, "ingest_buffer": ingestBuf, "flush_trigger_rows": trigger, "batch_rows": batchRows, "producers": producers, "gate": gateKind, "partitions": partMode, "every_third_batch_empty": emptyMix, "bound": bound, "offers": offers, "max_buffered_time": maxBuf.String()}
 
 	var accepted, answered, maxOut atomic.Int64
+	var chans []chan error
+	var cmu sync.Mutex
+	// drain counts every answer that already sits in its (buffered) done channel. sample()
+	// drains first, so "outstanding" never includes a batch whose answer has been delivered:
+	// a lagging receiver goroutine on a loaded machine must not inflate the gauge (it once did:
+	// 215 empty batches, each acknowledged on acceptance, were read as 201 outstanding).
+	drain := func() {
+		cmu.Lock()
+		for k := 0; k < len(chans); k++ {
+			select {
+			case <-chans[k]:
+				answered.Add(1)
+				chans[k] = chans[len(chans)-1]
+				chans = chans[:len(chans)-1]
+				k--
+			default:
+			}
+		}
+		cmu.Unlock()
+	}
 	sample := func() {
+		drain()
 		out := accepted.Load() - answered.Load()
 		for {
 			m := maxOut.Load()
@@ -110,8 +131,6 @@ func runC09(rc *RunCtx, i int) {
 			}
 		}
 	}
-	var chans []chan error
-	var cmu sync.Mutex
 	stopRecv := make(chan struct{})
 	var recvWG sync.WaitGroup
 	recvWG.Add(1)
@@ -123,18 +142,6 @@ func runC09(rc *RunCtx, i int) {
 				return
 			default:
 			}
-			cmu.Lock()
-			for k := 0; k < len(chans); k++ {
-				select {
-				case <-chans[k]:
-					answered.Add(1)
-					chans[k] = chans[len(chans)-1]
-					chans = chans[:len(chans)-1]
-					k--
-				default:
-				}
-			}
-			cmu.Unlock()
 			sample()
 			time.Sleep(200 * time.Microsecond)
 		}
@@ -176,10 +183,10 @@ func runC09(rc *RunCtx, i int) {
 				cancel()
 				calls.Add(1)
 				if err == nil {
-					accepted.Add(1)
 					cmu.Lock()
 					chans = append(chans, ch)
 					cmu.Unlock()
+					accepted.Add(1)
 					consecutive = 0
 				} else if errors.Is(err, context.DeadlineExceeded) {
 					timedOut.Add(1)
@@ -222,9 +229,13 @@ func runC09(rc *RunCtx, i int) {
 	}
 	// saturated: one more call must end with its context error
 	ctx, cancel := context.WithTimeout(context.Background(), 150*time.Millisecond)
-	err = e.IngestRows(ctx, []map[string]any{env.w.NewRow(rr, 0).Row}, make(chan error, 2))
+	lastCh := make(chan error, 2)
+	err = e.IngestRows(ctx, []map[string]any{env.w.NewRow(rr, 0).Row}, lastCh)
 	cancel()
 	if err == nil {
+		cmu.Lock()
+		chans = append(chans, lastCh)
+		cmu.Unlock()
 		accepted.Add(1)
 		sample()
 		if maxOut.Load() > bound {
@@ -243,10 +254,10 @@ func runC09(rc *RunCtx, i int) {
 			ecancel()
 			if eerr == nil {
 				extra++
-				accepted.Add(1)
 				cmu.Lock()
 				chans = append(chans, ch)
 				cmu.Unlock()
+				accepted.Add(1)
 			}
 			sample()
 		}
